@@ -105,6 +105,78 @@ func (c *Ctx) defineGuard(prev, conj string) string {
 	return n
 }
 
+// selectOf simplifies (select h ref) when h is defined as a store at the very same term.
+func (c *Ctx) selectOf(h, ref string) string {
+	for depth := 0; depth < 4; depth++ {
+		i, ok := c.idx[h]
+		if !ok {
+			break
+		}
+		line := c.defs[i].line
+		pre := "(define-fun " + h + " () "
+		if !strings.HasPrefix(line, pre) {
+			break
+		}
+		// body is the last top-level s-expression
+		body := strings.TrimSuffix(line, ")")
+		k := strings.Index(body, "(store ")
+		if k < 0 || !strings.HasSuffix(strings.TrimSpace(body[:k]), ")") && !strings.HasSuffix(strings.TrimSpace(body[:k]), "Bool") && false {
+			break
+		}
+		st := body[k:]
+		parts := splitSexprArgs(st)
+		if len(parts) != 4 || parts[0] != "store" {
+			break
+		}
+		if parts[2] == ref {
+			return parts[3]
+		}
+		break
+	}
+	return "(select " + h + " " + ref + ")"
+}
+
+// splitSexprArgs splits "(f a b c)" into [f a b c] at the top level.
+func splitSexprArgs(s string) []string {
+	s = strings.TrimSpace(s)
+	if len(s) < 2 || s[0] != '(' || s[len(s)-1] != ')' {
+		return nil
+	}
+	s = s[1 : len(s)-1]
+	var out []string
+	depth := 0
+	start := -1
+	for i := 0; i < len(s); i++ {
+		ch := s[i]
+		switch {
+		case ch == '(':
+			if depth == 0 && start < 0 {
+				start = i
+			}
+			depth++
+		case ch == ')':
+			depth--
+			if depth == 0 {
+				out = append(out, s[start:i+1])
+				start = -1
+			}
+		case ch == ' ':
+			if depth == 0 && start >= 0 {
+				out = append(out, s[start:i])
+				start = -1
+			}
+		default:
+			if depth == 0 && start < 0 {
+				start = i
+			}
+		}
+	}
+	if start >= 0 {
+		out = append(out, s[start:])
+	}
+	return out
+}
+
 func isAtom(t string) bool {
 	return !strings.ContainsAny(t, " ()")
 }
@@ -179,14 +251,23 @@ func (c *Ctx) queryMode(asserts []string, extra []string, mode int) string {
 		return ""
 	}
 	preSyms := map[string][]int{} // symbol -> prelude lines that declare or axiomatise it
-	lastSym := ""
+	declared := map[string]bool{}
+	for _, p := range c.prelude {
+		if sym := declSym(p); sym != "" {
+			declared[sym] = true
+		}
+	}
 	for i, p := range c.prelude {
 		if sym := declSym(p); sym != "" {
 			preSyms[sym] = append(preSyms[sym], i)
-			lastSym = sym
-		} else if strings.HasPrefix(p, "(assert") && lastSym != "" {
-			// an axiom belongs to the most recently declared symbol
-			preSyms[lastSym] = append(preSyms[lastSym], i)
+		} else if strings.HasPrefix(p, "(assert") {
+			// an axiom belongs to the first declared symbol it mentions
+			for _, t := range tokens(p) {
+				if declared[t] {
+					preSyms[t] = append(preSyms[t], i)
+					break
+				}
+			}
 		}
 	}
 	needPre := map[int]bool{}
